@@ -104,6 +104,8 @@ class Job:
         self.detail = ""
         self.extra = {}
         self.t0 = time.time()
+        self.vacuity_check = True
+        self._consistent = {}
 
     def claim(self, ctx, claim, what, make_cex, timeout_ms=None, assuming=()):
         """One property obligation on the current path.  make_cex(model) -> dict."""
@@ -113,6 +115,9 @@ class Job:
         self.extra.setdefault("claim_s", {})
         self.extra["claim_s"][what[:40]] = round(self.extra["claim_s"].get(what[:40], 0) + time.time() - _t, 2)
         if r == "unsat":
+            if not self.consistent(ctx, assuming):
+                self.inconclusive.append(what + ": vacuous - the assumptions of this path are unsatisfiable (harness error)")
+                return None
             self.discharged += 1
             return True
         if r == "sat":
@@ -125,6 +130,21 @@ class Job:
             return False
         self.inconclusive.append(what + ": solver returned unknown")
         return None
+
+    def consistent(self, ctx, assuming=()):
+        """Guard against vacuity: the path condition plus everything assumed so far must be satisfiable.
+        Checked once per (path, number of assumptions)."""
+        if not self.vacuity_check:
+            return True
+        key = (id(ctx), len(ctx.base), len(ctx.pc), len(assuming))
+        if key in self._consistent:
+            return self._consistent[key]
+        r = ctx.fresh_sat(list(assuming), 30000)
+        ok = r != "unsat"
+        self._consistent[key] = ok
+        if r == "sat":
+            self.vacuity = True if self.vacuity is None else self.vacuity
+        return ok
 
     def claims_and_safety(self, ctx, claims, make_cex, timeout_ms=None):
         """One query for several claims plus all pending safety obligations; split only if it fails."""
@@ -140,6 +160,9 @@ class Job:
         self.extra["batch_s"] = round(self.extra.get("batch_s", 0) + time.time() - _t, 2)
         if r == "unsat":
             self.obligations += n
+            if not self.consistent(ctx):
+                self.inconclusive.append("vacuous - the assumptions of this path are unsatisfiable (harness error)")
+                return None
             self.discharged += n
             ctx.obligations = []
             return True
